@@ -82,6 +82,7 @@ let exc toks =
       let maxr = zi maxr in
       let c = ref (ex_cli_init (zi mid0) (zi tok0)) in
       let hist = ref [] in
+      let ins = List.filter (fun s -> s = "" || s.[0] <> 'H') ins in   (* H<n>: request method, not modelled *)
       let steps = List.filter_map (fun s ->
           match (try Some (parse_in !hist s) with Not_found -> None) with
           | None -> None
